@@ -144,6 +144,7 @@ func runModelCheck(c *Ctx, spec modelSpec) *orch.Outcome {
 		"one-step oracle: the reference rules are re-based on the OBSERVED previous state at every block; OPR/SPR grading verdicts are taken from the pegnet grader library called directly on the same entries",
 		"compressed eras (mainnet order and equalities), averaging window 12 (thorough tier: 6, 8, 12, 16 and 20 over the profiles) unless stated",
 		"shapes that reproduce recorded legacy-era findings are kept out of the default workload (DESIGN.md appendix A)",
+		"every third profile also answers read-only API requests (rich lists, issuance, rates) between blocks",
 		"in every second profile each 4th block fails once at its last statement (the sync-height update) and is applied again by the same process; the expectations do not change",
 	}, spec.Assume...)
 	var jobs []orch.Job
@@ -179,6 +180,8 @@ func runModelCheck(c *Ctx, spec modelSpec) *orch.Outcome {
 	o.Extra["balance_changes_confirmed"] = orch.SumCounter(rs, "balance_changes_confirmed")
 	o.Extra["runs"] = len(jobs)
 	o.Extra["blocks_applied_twice_after_a_late_failure"] = orch.SumCounter(rs, "blocks_applied_twice_after_a_late_failure")
+	o.Extra["blocks_retried_after_a_failed_dblock_fetch"] = orch.SumCounter(rs, "blocks_retried_after_a_failed_dblock_fetch")
+	o.Extra["api_requests_between_blocks"] = orch.SumCounter(rs, "api_requests_between_blocks")
 	if len(others) > 0 {
 		o.Extra["mismatches_attributed_to_other_properties_ignored_here"] = others
 	}
@@ -260,6 +263,9 @@ func featProfiles(c *Ctx, quick, thorough int, lateEvery int, feats ...string) [
 		if i%2 == 1 {
 			fs = append(append([]string{}, feats...), "retries") // every 4th block fails at its last statement once and is applied again
 		}
+		if i%3 == 2 {
+			fs = append(append([]string{}, fs...), "api-reads") // read-only API requests between blocks
+		}
 		ps = append(ps, modelParams{Seed: s, Profile: "mixed", Late: lateEvery > 0 && i%lateEvery == lateEvery-1, Features: fs, Window: thoroughWindow(c, i)})
 	}
 	return ps
@@ -336,7 +342,7 @@ func init() {
 			Profiles: func(c *Ctx) []modelParams {
 				ps := featProfiles(c, 4, 64, 0, "c14", "quiet")
 				for i := range ps {
-					ps[i].Upto = 144*4 + 40
+					ps[i].Upto = 144*5 + 20
 					if ps[i].Seed%3 != 2 {
 						ps[i].Features = append(ps[i].Features, "small-ties", "whale-exit") // total stake decided by the c14 holders: below / around the cap
 					}
